@@ -9,13 +9,18 @@
 #ifndef H_KPL
 #define H_KPL 3
 #endif
+// the bit logic under test does not depend on the modulus; modulus 1 keeps all masking values concrete (r = 0 is the only
+// residue and a unit), so the query is about the random bits only
+#ifndef H_MOD
+#define H_MOD 1UL
+#endif
 #ifndef H_WB
 #define H_WB 2
 #endif
 H_ENTRY(h_cs_xor) {
   SchindelhauerTMCG *tmcg = new SchindelhauerTMCG(2, H_KPL, H_WB);
   TMCG_PublicKeyRing ring(H_KPL);
-  for (unsigned k = 0; k < H_KPL; ++k) { mpz_set_ui(ring.keys[k].m, 21UL); mpz_set_ui(ring.keys[k].y, 5UL); }
+  for (unsigned k = 0; k < H_KPL; ++k) { mpz_set_ui(ring.keys[k].m, H_MOD); mpz_set_ui(ring.keys[k].y, 1UL); }
   size_t index = (size_t)vf_nondet_below(H_KPL);
   TMCG_CardSecret cs(H_KPL, H_WB);
   tmcg->TMCG_CreateCardSecret(cs, ring, index);
